@@ -842,9 +842,11 @@ impl Values<bool> for Intervals<bool> {
 
 impl Values<i64> for Intervals<i64> {
     fn values_len(&self) -> Option<usize> {
-        let min = (*self.min()?).clamp(-(self.capacity as i64), self.capacity as i64);
-        let max = (*self.max()?).clamp(-(self.capacity as i64), self.capacity as i64);
-        Some((max - min) as usize)
+        // The span is clamped, not the bounds: clamping each bound made any range lying
+        // outside [-capacity, capacity] look empty and be enumerated value by value
+        let min = *self.min()?;
+        let max = *self.max()?;
+        Some(max.saturating_sub(min).clamp(0, self.capacity as i64) as usize)
     }
     fn max_value_len(&self) -> usize {
         self.capacity
